@@ -522,6 +522,12 @@ impl JitCompiler {
                 if map_register(1) != RDI {
                     self.emit_mov(mem, RDI, map_register(1));
                 }
+                // An empty mbuff is no mbuff: register 1 gets the mem pointer, as in the interpreter.
+                self.emit_alu64(mem, 0x85, RSI, RSI); // test mbuff_len, mbuff_len
+                self.emit_basic_rex(mem, 1, map_register(1), RDX);
+                self.emit1(mem, 0x0f);
+                self.emit1(mem, 0x44); // cmovz
+                self.emit_modrm_reg2reg(mem, map_register(1), RDX);
             }
             (true, true) => {
                 // We have a fixed (simulated) mbuff: update mem and mem_end offset values in it.
